@@ -355,11 +355,9 @@ fn do_round(tid: usize, ri: usize, r: &Round, handover_holder: bool) {
                     }
                     match r {
                         Ok(()) => {
-                            if fired {
-                                viol("install-succeeded-despite-refused-syscall", format!("{what}: mprotect call #{k} of the installation was refused, yet it reported success"));
-                            }
                             let v = black_box(ct_fn as fn(u32) -> u32)(1);
-                            if !fired && v != 41 {
+                            // reported success (with or without a refused call): the function is faked
+                            if v != 41 {
                                 viol("injector-holder-observed-foreign-behaviour", format!("{what}: the second fake should answer 41 but ct_fn(1) returned {v}"));
                             }
                         }
